@@ -158,6 +158,12 @@ class Config:
         self.returning = True
         self.wide_lists = True
         self.tzcast = True
+        # PostgreSQL's bitwise XOR 'a #<line break> b': '#' followed by a
+        # blank opens a MySQL comment, so the operator is only written in
+        # front of a line break or a tab. Off by default: a formatter that
+        # rewrites that gap to a blank changes the meaning (cf. D25), which
+        # is no concern of the checks that only split (C05 switches it on).
+        self.hash_operator = False
         for k, v in kw.items():
             if not hasattr(self, k):
                 raise TypeError(k)
@@ -458,6 +464,14 @@ class Gen:
         last_kind = kind
         for _ in range(n):
             op = rng.choice(['+', '-', '*', '/', '||', '%'])
+            if self.cfg.hash_operator and rng.random() < 0.35:
+                self.emit('op', '#', 'req')
+                _, l, k2 = self.atom(depth, 'nl!')
+                last_kind = k2
+                pure = False
+                kind = 'operation-x'
+                self.s.features.add('hash-operator')
+                continue
             # operators may be written without blanks where the lexer cannot
             # fuse them with a neighbour ('%s' is a placeholder, '-1' a
             # number, '--' / '/*' comment openers)
@@ -1170,6 +1184,9 @@ class Layout:
         rng = self.rng
         if cls == 'none':
             return ''
+        if cls == 'nl!':                 # starts with a line break or a tab
+            return rng.choice(['\n', '\n', '\r\n', '\r', '\t', '\n  ', '\n\t',
+                               '\n\n'])
         if cls.endswith('!'):            # whitespace only, never a comment
             return self.one_ws()
         parts = []
